@@ -11,6 +11,7 @@ Inductive case :=
 | CRawEntry (leaf extra : bytes) (obs : res (val * val * val))
 | CToSct (version : N) (id : bytes) (ts : N) (ext : option bytes) (sig : bytes) (obs : res val)
 | CToSth (size ts : N) (root sig : bytes) (obs : res (N * N * bytes * val))
+| CComplete (t : ty) (data : bytes) (obs : res val)                (* a whole buffer decoded into a wire type: trailing data is an error *)
 (* the independent RFC encoders against the implementation's bytes *)
 | CRfcLeaf (ts : N) (e : entry) (ext : bytes) (obs : bytes)
 | CRfcSctInput (ts : N) (e : entry) (ext : bytes) (obs : bytes)
@@ -42,6 +43,7 @@ Definition check (c : case) : bool :=
   | CRawEntry l x obs => okish triple_eqb (raw_log_entry_from_leaf l x) obs
   | CToSct ver id ts ext sig obs => okish val_eqb (to_sct ver id ts ext sig) obs
   | CToSth sz ts root sig obs => okish sth_eqb (to_sth sz ts root sig) obs
+  | CComplete t d obs => okish val_eqb (complete t d) obs
   | CRfcLeaf ts e ext obs => bytes_eqb (enc_leaf ts e ext) obs
   | CRfcSctInput ts e ext obs => bytes_eqb (enc_sct_siginput ts e ext) obs
   | CRfcSthInput ts sz root obs => bytes_eqb (enc_sth_siginput ts sz root) obs
@@ -56,6 +58,7 @@ Definition explain (c : case) :=
   | CRawEntry l x _ => (None, None, Some (raw_log_entry_from_leaf l x))
   | CToSct ver id ts ext sig _ => (match to_sct ver id ts ext sig with Ok _ => Some (Ok []) | _ => Some ErrStruct end, None, None)
   | CToSth sz ts root sig _ => (match to_sth sz ts root sig with Ok _ => Some (Ok []) | _ => Some ErrStruct end, None, None)
+  | CComplete t d _ => (match complete t d with Ok _ => Some (Ok []) | _ => Some ErrStruct end, None, None)
   | CRfcLeaf ts e ext _ => (Some (Ok (enc_leaf ts e ext)), None, None)
   | CRfcSctInput ts e ext _ => (Some (Ok (enc_sct_siginput ts e ext)), None, None)
   | CRfcSthInput ts sz root _ => (Some (Ok (enc_sth_siginput ts sz root)), None, None)
